@@ -79,8 +79,13 @@ struct IO<T, std::enable_if_t<std::is_integral<T>::value>> {
 };
 template <typename T>
 struct IO<T, std::enable_if_t<std::is_enum<T>::value>> {
-  static void build(Tok& k, T& x) { x = (T)strtoll(k.next().c_str(), nullptr, 10); }
-  static void show(const T& x, std::string& o) { o += std::to_string((long long)(int32_t)x); }
+  using U = typename std::underlying_type<T>::type;
+  static void build(Tok& k, T& x) {
+    U u;
+    IO<U>::build(k, u);
+    x = static_cast<T>(u);
+  }
+  static void show(const T& x, std::string& o) { IO<U>::show(static_cast<U>(x), o); }
 };
 template <>
 struct IO<float> {
@@ -285,6 +290,12 @@ struct IO<c11::Small> {
 
 // ------------------------------------------------------------------ the type family
 enum CEnum : int32_t { CE0 = 0, CE1 = 1, CE2 = 2, CEN = -5, CEBIG = 100000 };
+// enums of every underlying width (every value of the underlying type is a valid value)
+enum class E8 : int8_t { Z = 0 };
+enum class EU8 : uint8_t { Z = 0 };
+enum class EU32 : uint32_t { Z = 0 };
+enum class E64 : int64_t { Z = 0 };
+enum class EU64 : uint64_t { Z = 0 };
 
 #define TIE(...)                                   \
   auto tie() { return std::tie(__VA_ARGS__); }
@@ -317,6 +328,22 @@ struct AggVupi {  // a container of smart pointers to scalars as a member (outsi
   int32_t x {0};
   BABYLON_COMPATIBLE((v, 1)(x, 2))
   TIE(v, x)
+};
+struct Enums {  // enums as members, in containers (elements, map keys and values) and behind smart pointers
+  E8 a {E8::Z};
+  EU8 b {EU8::Z};
+  CEnum c {CE0};
+  EU32 d {EU32::Z};
+  E64 e {E64::Z};
+  EU64 f {EU64::Z};
+  std::vector<E64> ve;
+  EU64 ae[2];
+  std::unordered_map<EU64, E64> m;
+  std::unique_ptr<E64> p;
+  std::shared_ptr<EU64> sp;
+  std::list<EU32> le;
+  BABYLON_COMPATIBLE((a, 1)(b, 2)(c, 3)(d, 4)(e, 5)(f, 6)(ve, 7)(ae, 8)(m, 9)(p, 10)(sp, 11)(le, 12))
+  TIE(a, b, c, d, e, f, ve, ae, m, p, sp, le)
 };
 struct Arr {
   int32_t a[3];
@@ -736,6 +763,15 @@ int main() {
   REG("u32", uint32_t)
   REG("u64", uint64_t)
   REG("en", CEnum)
+  REG("en8", E8)
+  REG("enu8", EU8)
+  REG("enu32", EU32)
+  REG("en64", E64)
+  REG("enu64", EU64)
+  REG("ven64", std::vector<E64>)
+  REG("mapee", std::unordered_map<EU64, E64>)
+  REG("upen64", std::unique_ptr<E64>)
+  REG("enums", Enums)
   REG("f32", float)
   REG("f64", double)
   REG("str", std::string)
